@@ -613,10 +613,11 @@ func (w *world) run(kind string, cfg *RunCfg, tag string) opResult {
 		if !stat.OK() {
 			Must(fmt.Errorf("dial: %v", stat))
 		}
-		st := s.Call("/math/add", &AddArg{A: 1, B: 2}, &res, secure.WithSecureMeta()).Status()
+		st := s.Call("/math/add", []byte(`{"cipherversion":"bogus-`+tag+`","ciphertext":"00"}`), &res,
+			erpc.WithBodyCodec('j'), secure.WithSecureMeta()).Status()
 		s.Close()
 		r.obs, r.held = tripleOf(st), st
-		r.args = []string{r.obs.val()} // the plugin's own fresh status, text from crypto/json
+		r.args = []string{r.obs.val()} // the plugin's own fresh status
 	default:
 		Must(fmt.Errorf("unknown op %s", kind))
 	}
@@ -680,7 +681,19 @@ func main() {
 		n := 2 + cfg.Rng.Intn(11)
 		var results []opResult
 		var kinds []string
-		rootKey := ""
+		rootKey, rootUser := "", ""
+		keyFor := func(op, dflt string) string {
+			if strings.HasPrefix(op, "bind") {
+				if rootUser != "" {
+					return rootUser
+				}
+				return dflt
+			}
+			if rootKey != "" {
+				return rootKey
+			}
+			return dflt
+		}
 		prev := snapshot()
 		failing := false
 		step := func(k, tag string, probe bool) {
@@ -700,7 +713,11 @@ func main() {
 			for j := range watch {
 				if now[j] != prev[j] {
 					key := classKey(r.human, watch[j])
-					if rootKey == "" {
+					if watch[j].pkg == "user" {
+						if rootUser == "" {
+							rootUser = key
+						}
+					} else if rootKey == "" {
 						rootKey = key
 					}
 					st.Fail(i, key, fmt.Sprintf("predefined status %s/%s changed from %v to %v during operation %s", watch[j].pkg, watch[j].name, prev[j], now[j], r.human), strings.Join(kinds, " "))
@@ -709,10 +726,7 @@ func main() {
 			prev = now
 			if probe {
 				if want := baseProbe[k]; r.obs != want {
-					key := rootKey
-					if key == "" {
-						key = "failure-triple-changed"
-					}
+					key := keyFor(k, "failure-triple-changed")
 					st.Fail(i, key, fmt.Sprintf("failing operation %s reports %v after this history; on a fresh process it reports %v", k, r.obs, want), strings.Join(kinds, " "))
 				}
 			}
@@ -732,10 +746,7 @@ func main() {
 			now := tripleOf(r.held)
 			heldVals = append(heldVals, now.val())
 			if now != r.obs {
-				key := rootKey
-				if key == "" {
-					key = "held-status-changed"
-				}
+				key := keyFor(r.human, "held-status-changed")
 				st.Fail(i, key, fmt.Sprintf("the status returned by %s read %v when returned and reads %v at the end of the history", r.human, r.obs, now), strings.Join(kinds, " "))
 			}
 		}
